@@ -63,6 +63,7 @@ type PartInfo struct {
 	Transitions uint64   `json:"transitions,omitempty"`
 	MaxDepth    int      `json:"max_depth,omitempty"`
 	Closed      bool     `json:"frontier_closed,omitempty"`
+	WallS       float64  `json:"wall_s"`
 }
 
 // Run is one execution of one property's check.
@@ -339,6 +340,15 @@ func (r *Run) Part(name string, n uint64, fn func(c *Case)) {
 
 // PartDims is Part with a description of the dimensions of the product.
 func (r *Run) PartDims(name string, dims []string, n uint64, fn func(c *Case)) {
+	r.PartWorkers(name, dims, n, r.Workers, fn)
+}
+
+// PartWorkers is PartDims with a cap on the number of workers (used where the
+// code under test serialises on a global lock and more workers only contend).
+func (r *Run) PartWorkers(name string, dims []string, n uint64, workers int, fn func(c *Case)) {
+	if workers > r.Workers || workers < 1 {
+		workers = r.Workers
+	}
 	if r.Replay {
 		if name != r.ReplayPart {
 			return
@@ -356,14 +366,15 @@ func (r *Run) PartDims(name string, dims []string, n uint64, fn func(c *Case)) {
 	}
 	var next uint64
 	var stop int32
+	t0 := time.Now()
 	chunk := uint64(64)
-	if n/uint64(r.Workers) < 64*4 {
+	if n/uint64(workers) < 64*4 {
 		chunk = 1
 	}
 	before := len(r.violOrder)
 	var wg sync.WaitGroup
-	ws := make([]*wstate, r.Workers)
-	for wi := 0; wi < r.Workers; wi++ {
+	ws := make([]*wstate, workers)
+	for wi := 0; wi < workers; wi++ {
 		w := &wstate{id: wi, outcomes: map[string]uint64{}}
 		ws[wi] = w
 		wg.Add(1)
@@ -390,7 +401,7 @@ func (r *Run) PartDims(name string, dims []string, n uint64, fn func(c *Case)) {
 		}(w)
 	}
 	wg.Wait()
-	pi := PartInfo{Name: name, Size: n, Dims: dims}
+	pi := PartInfo{Name: name, Size: n, Dims: dims, WallS: time.Since(t0).Seconds()}
 	for _, w := range ws {
 		pi.Executed += w.cases
 		pi.NonTrivial += w.nontriv
@@ -689,7 +700,7 @@ func (r *Run) Finish() int {
 	fmt.Printf("property=%s tier=%s evaluations=%d nontrivial=%d states=%d transitions=%d outcomes=%d exhaustive=%v wall=%.1fs\n",
 		r.Prop, r.Tier, r.evals, r.nontriv, r.states, r.transitions, len(r.outcomes), exhaustive, wall)
 	for _, p := range r.parts {
-		fmt.Printf("  part %-44s size=%-11d executed=%-11d nontrivial=%-11d complete=%v\n", p.Name, p.Size, p.Executed, p.NonTrivial, p.Complete)
+		fmt.Printf("  part %-44s size=%-11d executed=%-11d nontrivial=%-11d complete=%v %.1fs\n", p.Name, p.Size, p.Executed, p.NonTrivial, p.Complete, p.WallS)
 	}
 
 	if len(keys) > 0 {
